@@ -99,12 +99,35 @@ def run(chk):
     if not crate.build():
         raise core.Inconclusive("K-unit build failed:\n" + crate.build_log[-3000:])
     tmo = 240 if chk.tier == "quick" else 1800
-    specs = [dict(name="h::c14::" + n, timeout=tmo,
+    lit_src = open(os.path.join(core.VERIF, "kani", "unit", "src", "h", "c12.rs")).read()
+    lit_names = [n for n in harness_names(lit_src, "c14_") if not chk.only or any(o in n for o in chk.only)]
+    specs = [dict(name="h::c12::" + n, timeout=tmo, info=dict(
+        functions_encoded="src/parser.rs `Rule::NUMBER_ANY` arm (verbatim slice, sha256 %s)" % crate.slices.get("number_any", {}).get("sha256"),
+        bounds="39-digit decimal literals around i128::MAX (last 3 digits symbolic); std float parser and str::contains stubbed", timeout=tmo))
+        for n in lit_names]
+    specs += [dict(name="h::c14::" + n, timeout=tmo,
                   info=dict(functions_encoded="src/util/lazy_bigint.rs (sha256 %s)" % crate.hashes.get("src/util/lazy_bigint.rs"),
                             bounds="operands: arbitrary canonical LazyBigint, |v| < 2^100; default unwind unless the harness states one",
                             timeout=tmo)) for n in names]
     obs = core.run_harnesses(chk, crate, specs, logdir=os.path.join(core.CACHE, "logs", "C14"))
     rend = {k: v for k, v in renderers().items() if v}
+
+    def lit_replay(trace, labels):
+        lit = trace.get("literal", "").strip('"')
+        if not lit:
+            return None
+        src_ = "let x = %s;" % lit
+        spec = dict(source=src_, bindings=["x"])
+
+        def check(got):
+            if got.get("panic"):
+                return "compiler panicked on `%s`: %s" % (src_, got["panic"])
+            v = got.get("values", {}).get("x", {})
+            if got.get("compile") == "ok" and v.get("int") != str(int(lit)):
+                return "integer literal `%s` was compiled to %s" % (lit, v)
+            return None
+        return dict(spec=spec, check=check)
+    rend["c14_decimal_literal"] = lit_replay
     core.triage(chk, crate, obs, rend, excl_factory=lambda cfgs: kunit.prepare(chk, rustflags=" ".join("--cfg " + c for c in cfgs)))
     prelude_queries(chk)
     return chk.finish(out_of_claim=OUT)
